@@ -72,8 +72,52 @@ func digestLen(mhb []byte) int {
 	return len(mhb) - j
 }
 
+// c02Large: archives with one large section (above 1 MiB; thorough: straddling the 2^21 varint
+// boundary) cut at sampled offsets inside and around it -- size-dependent read paths must report
+// truncation like the small ones do.
+func c02Large(c *Ctx) {
+	r := c.R.Fork()
+	sizes := []int{1<<20 + 4096}
+	if c.Thorough {
+		sizes = append(sizes, 2097152-40, 2097152+3)
+	}
+	for _, sz := range sizes {
+		small1 := genBlock(r, genOpts{maxData: 20})
+		bigData := r.Bytes(sz)
+		big := Blk{mkCid(1, 0x55, 0x12, -1, bigData), bigData}
+		small2 := genBlock(r, genOpts{maxData: 20})
+		blks := []Blk{small1, big, small2}
+		roots := genRoots(r, blks, false)
+		payload := refPayload(roots, blks)
+		hdrLen := len(refPayload(roots, nil))
+		lay := payloadLayout(nil, payload, blks, hdrLen)
+		orig := blksVal(blks)
+		o := defaultROpts
+		cuts := []int{lay.secStart[1] + 1, lay.cidStart[1], lay.dataStart[1], lay.dataStart[1] + 1,
+			lay.dataStart[1] + sz/2, lay.secEnd[1] - 4097, lay.secEnd[1] - 1, lay.secEnd[1], lay.secEnd[1] + 1}
+		boundary := map[int]bool{lay.hdrEnd: true}
+		for _, e := range lay.secEnd {
+			boundary[e] = true
+		}
+		for _, kind := range []uint64{0, 1, 2} {
+			for _, k := range cuts {
+				nb := VN(1)
+				if boundary[k] {
+					nb = VN(0)
+				}
+				f := payload[:k]
+				hok, hdrs := scanTables(f)
+				in := VL{VN(kind), o.val(), VB(f), hok, hdrs, VL{VT("trunc"), orig, nb}}
+				c.Emit("scan", in, runScanImpl(kind, o, f, r.Bool()), true)
+				c.Count("input:large-section-prefix")
+			}
+		}
+	}
+}
+
 func init() {
 	register("c02", func(c *Ctx) {
+		c02Large(c)
 		nArch := 8 * c.Scale
 		for a := 0; a < nArch; a++ {
 			r := c.R.Fork()
